@@ -49,10 +49,6 @@ type Gen struct {
 	Hostile      bool // strings from the hostile alphabet too
 	Tokens       bool // put a unique token into every string: Uq<n>z in unsafe channels, Sq<n>z in safe ones
 	OpErrorArrow bool
-	// SilentWrappers: user wrappers whose whole message is the empty string (only where the relation
-	// is about identity: an empty Error() below a prefix wrapper is not regular text, the engine
-	// elides it together with its ": ")
-	SilentWrappers bool
 	// QuoteSafe: some safe constants put their token between guillemets used as quotation marks
 	// (only for streams whose relation is not restricted to marker-free inputs)
 	QuoteSafe bool
@@ -467,10 +463,6 @@ func (g *Gen) Wrapper(kid *R, depth int) *R {
 		kinds := []string{"unwrap", "cause", "both", "full", "empty", "safedet", "as", "nocmp"}
 		k := g.r.pick(kinds)
 		r := &R{Op: "uwrap", S: []string{k, g.sU()}, Kids: k1, Strs: []string{}}
-		if k == "full" && g.SilentWrappers && g.r.chance(20) {
-			// a wrapper that silences its cause: the whole message is the empty string
-			r.S[1] = ""
-		}
 		if k == "safedet" {
 			r.Strs = []string{g.rawStr()}
 		}
